@@ -362,28 +362,65 @@ func (e *Engine) datatypeDecls() string {
 			}
 		}
 	}
-	var out []string
-	done := map[string]bool{}
-	visiting := map[string]bool{}
 	byName := map[string]string{}
 	for _, d := range ds {
 		byName[d.name] = d.text
 	}
-	var visit func(n string)
-	visit = func(n string) {
-		if done[n] || visiting[n] {
-			return
+	// strongly connected components (Tarjan): mutually recursive datatypes are declared together
+	index := map[string]int{}
+	low := map[string]int{}
+	onStack := map[string]bool{}
+	var stack []string
+	var out []string
+	n := 0
+	var strong func(v string)
+	strong = func(v string) {
+		n++
+		index[v], low[v] = n, n
+		stack = append(stack, v)
+		onStack[v] = true
+		sort.Strings(deps[v])
+		for _, w := range deps[v] {
+			if index[w] == 0 {
+				strong(w)
+				if low[w] < low[v] {
+					low[v] = low[w]
+				}
+			} else if onStack[w] && index[w] < low[v] {
+				low[v] = index[w]
+			}
 		}
-		visiting[n] = true
-		sort.Strings(deps[n])
-		for _, m := range deps[n] {
-			visit(m)
+		if low[v] == index[v] {
+			var comp []string
+			for {
+				w := stack[len(stack)-1]
+				stack = stack[:len(stack)-1]
+				onStack[w] = false
+				comp = append(comp, w)
+				if w == v {
+					break
+				}
+			}
+			if len(comp) == 1 {
+				out = append(out, byName[comp[0]])
+				return
+			}
+			sort.Strings(comp)
+			var heads, bodies []string
+			for _, c := range comp {
+				t := byName[c]
+				// "(declare-datatypes ((NAME 0)) (BODY))"
+				i := strings.Index(t, " 0)) (") + len(" 0)) (")
+				heads = append(heads, "("+c+" 0)")
+				bodies = append(bodies, t[i:len(t)-2])
+			}
+			out = append(out, "(declare-datatypes ("+strings.Join(heads, " ")+") ("+strings.Join(bodies, " ")+"))")
 		}
-		done[n] = true
-		out = append(out, byName[n])
 	}
 	for _, d := range ds {
-		visit(d.name)
+		if index[d.name] == 0 {
+			strong(d.name)
+		}
 	}
 	return strings.Join(out, "\n") + "\n"
 }
@@ -533,6 +570,15 @@ func main() {
 	switch os.Args[1] {
 	case "check":
 		os.Exit(cmdCheck(os.Args[2:]))
+	case "mapranges":
+		l, err := loadModule("/repo/module", []string{"./x/mhub2/...", "./x/oracle/..."}, nil, "")
+		if err != nil {
+			fmt.Fprintln(os.Stderr, err)
+			os.Exit(2)
+		}
+		for _, s := range mapRangeSites(l) {
+			fmt.Println(s.fn.String(), l.prog.Fset.Position(s.rng.Pos()))
+		}
 	case "dump":
 		fs := flag.NewFlagSet("dump", flag.ExitOnError)
 		pkg := fs.String("pkg", "keeper", "package name suffix")
